@@ -106,6 +106,7 @@ type World struct {
 	Step     int
 	resKeys  [4]ecs.ResID
 	slotOpen []bool // query slots open before the current op
+	onlyEnt  int    // compareWorld restricted to entity onlyEnt-1 (0: all)
 
 	// OnStep, if set, is called at the start of every Exec with the step number.
 	OnStep func(step int)
